@@ -23,8 +23,10 @@
 #include <memory>
 #include <optional>
 #include <string>
+#include <tuple>
 #include <unordered_map>
 #include <unordered_set>
+#include <utility>
 #include <vector>
 
 #include "oomd/CgroupContext.h"
@@ -113,10 +115,25 @@ class OomdContext {
   std::vector<ConstCgroupContextRef> reverseSort(
       const std::unordered_set<CgroupPath>& cgroups,
       Functor&& get_key) {
-    auto sorted = addToCacheAndGet(cgroups);
-    std::sort(sorted.begin(), sorted.end(), [&](const auto& a, const auto& b) {
-      return get_key(a.get()) > get_key(b.get());
+    // Keys are computed once per cgroup. A statistic that turns unavailable in
+    // the middle of the sort (the cgroup is being removed) would otherwise
+    // make the comparison inconsistent, which is undefined behaviour for
+    // std::sort.
+    auto cgroup_ctxs = addToCacheAndGet(cgroups);
+    using Key = decltype(get_key(cgroup_ctxs.front().get()));
+    std::vector<std::pair<Key, ConstCgroupContextRef>> keyed;
+    keyed.reserve(cgroup_ctxs.size());
+    for (const auto& cgroup_ctx : cgroup_ctxs) {
+      keyed.emplace_back(get_key(cgroup_ctx.get()), cgroup_ctx);
+    }
+    std::sort(keyed.begin(), keyed.end(), [](const auto& a, const auto& b) {
+      return a.first > b.first;
     });
+    std::vector<ConstCgroupContextRef> sorted;
+    sorted.reserve(keyed.size());
+    for (const auto& entry : keyed) {
+      sorted.push_back(entry.second);
+    }
     return sorted;
   }
 
@@ -128,15 +145,27 @@ class OomdContext {
   static std::vector<ConstCgroupContextRef> sortDescWithKillPrefs(
       const std::vector<ConstCgroupContextRef>& cgroups,
       Functor&& get_key) {
-    auto sorted = cgroups;
-    std::sort(sorted.begin(), sorted.end(), [&](const auto& a, const auto& b) {
-      return std::make_tuple(
-                 a.get().kill_preference().value_or(KillPreference::NORMAL),
-                 get_key(a.get())) >
+    // Keys are computed once per cgroup, see reverseSort()
+    using Key = decltype(std::make_tuple(
+        KillPreference::NORMAL, get_key(cgroups.front().get())));
+    std::vector<std::pair<Key, ConstCgroupContextRef>> keyed;
+    keyed.reserve(cgroups.size());
+    for (const auto& cgroup_ctx : cgroups) {
+      keyed.emplace_back(
           std::make_tuple(
-                 b.get().kill_preference().value_or(KillPreference::NORMAL),
-                 get_key(b.get()));
+              cgroup_ctx.get().kill_preference().value_or(
+                  KillPreference::NORMAL),
+              get_key(cgroup_ctx.get())),
+          cgroup_ctx);
+    }
+    std::sort(keyed.begin(), keyed.end(), [](const auto& a, const auto& b) {
+      return a.first > b.first;
     });
+    std::vector<ConstCgroupContextRef> sorted;
+    sorted.reserve(keyed.size());
+    for (const auto& entry : keyed) {
+      sorted.push_back(entry.second);
+    }
     return sorted;
   }
 
